@@ -102,7 +102,8 @@ Definition restack (b : book) (i : nat) (pr : predictor) (max_stack : Z) : book 
   | inr e => inr e
   end.
 
-(** Promises.propose (with the repair: the oldest promise is droppable once its trip has ended) *)
+(** Promises.propose (with the repairs: the oldest promise is droppable once its trip has ended
+    and its clearance date has passed) *)
 Definition propose (b : book) (ts te : Z) (distance travelled : K) (now : Z) (pr : predictor) (max_stack : Z)
   : proposal + perr :=
   if te <=? ts then inr EInvalidArgument else
@@ -110,7 +111,7 @@ Definition propose (b : book) (ts te : Z) (distance travelled : K) (now : Z) (pr
   if ts <? now then inr EInvalidArgument else
   if ts =? 0 then inr EInvalidArgument else
   let oldest := getp b (MaxPromises - 1) in
-  if (now <=? p_te oldest) && (0 <? p_ts oldest) then inr ENoRoom else
+  if ((now <=? p_te oldest) || (now <=? p_clear oldest)) && (0 <? p_ts oldest) then inr ENoRoom else
   let clearance := match pr_predict pr distance (to_epoch_days te true) with
                    | Some c => c | None => to_epoch_days te false + 1 end in
   let p := {| p_ts := ts; p_te := te; p_dist := distance; p_trav := travelled;
